@@ -32,14 +32,14 @@ def run(tier, seed, only=None):
                      "AbelianArray.gen_valid_sectors", "AbelianArray.is_valid_sector"]
     thorough = tier == "thorough"
     rep.bounds = {"group laws": "all valid charges (finite groups), all integers (U1, U1U1)",
-                  "sector enumeration": ("ndim<=2: every non-empty subset of a 3-charge universe per index (4 for Z4); ndim=3: first index "
+                  "sector enumeration": ("ndim 0..2: every non-empty subset of a 3-charge universe per index (4 for Z4); ndim=3: first index "
                                          "over the 3-charge universe, others over every non-empty subset of 2 charges" if not thorough else
                                          "ndim<=3: every non-empty subset of a 3-charge universe per index (Z4: first 3 of 4 for concrete indices); ndim=4 over 2-charge universes"),
                   "duals/total charge": "every dualness pattern; every total charge (unbounded for U1-type)"}
     rep.outside = ["more than 4 indices; charge universes other than the fixed small ones; user-defined Symmetry subclasses"]
     t = 120 if not thorough else 300
     res, herr = xh.run_all(os.path.join(env.VERIF, "harness", "h_c17_groups.py"), timeout=t)
-    files = [_gen("h_c17_sec_a.py", ndims=[1, 2], nsym_idx=1)]
+    files = [_gen("h_c17_sec_a.py", ndims=[0, 1, 2], nsym_idx=1)]
     if not thorough:
         files.append(_gen("h_c17_sec_b.py", ndims=[3], nsym_idx=1, conc_universe=2))
     else:
